@@ -81,7 +81,7 @@ def order(cfg, crate, rep):
     key = "%s|main" % cfg
     dom = common.mir_dominators(body)
     blocks = common.mir_blocks(body)
-    writes = common.mir_calls(body, lambda c: c == "cert::PemCertifiedKey::write")
+    writes = common.mir_calls_deep(crate, body, lambda c: c == "cert::PemCertifiedKey::write")
     rep.ob("C18.order", key + "|two-writes", len(writes) == 2, "main writes exactly two key/certificate pairs", found=len(writes))
     if not writes:
         return
@@ -90,14 +90,14 @@ def order(cfg, crate, rep):
     fallible = ["cert::CertificateBuilder::signature_algorithm", "cert::CaBuilder::country_name", "cert::CaBuilder::build", "cert::EndEntityBuilder::build"]
     n = 0
     for f in fallible:
-        cs = common.mir_calls(body, lambda c, f=f: c == f)
+        cs = common.mir_calls_deep(crate, body, lambda c, f=f: c == f)
         want = 2 if f.endswith("signature_algorithm") else 1
         rep.ob("C18.order", key + "|" + f + "|count", len(cs) == want, "expected call count", expected=want, found=len(cs))
         for bid, t in cs:
             n += 1
             rep.ob("C18.order", key + "|" + f + "|before-first-write", bid in dom[w1] and bid != w1, "every fallible, option-dependent step dominates the first file write (nothing is written when it fails)", found="bb%d vs first write bb%d" % (bid, w1), sp=t.get("sp"))
-    opt = common.mir_calls(body, lambda c: c.endswith("OptionParser::run"))
-    rep.ob("C18.order", key + "|options-first", len(opt) == 1 and opt[0][0] in dom[w1] and all(opt[0][0] in dom[bid] for f in fallible for bid, t in common.mir_calls(body, lambda c, f=f: c == f)), "option parsing (incl. parse_sans) precedes everything", found=len(opt))
+    opt = common.mir_calls_deep(crate, body, lambda c: c.endswith("OptionParser::run"))
+    rep.ob("C18.order", key + "|options-first", len(opt) == 1 and opt[0][0] in dom[w1] and all(opt[0][0] in dom[bid] for f in fallible for bid, t in common.mir_calls_deep(crate, body, lambda c, f=f: c == f)), "option parsing (incl. parse_sans) precedes everything", found=len(opt))
     # after the first write: only serialisation / writes / error plumbing
     after = common.mir_reachable(body, w1)
     allowed = ("cert::PemCertifiedKey::write", "cert::Ca::serialize_pem", "cert::EndEntity::serialize_pem", "Try>::branch", "FromResidual", "std::ops::Try::branch", "from_residual", "std::convert::From::from", "drop_in_place", "Deref", "as_ref", "::deref", "into")
